@@ -163,7 +163,7 @@ impl Property for C20 {
     }
     fn rule(&self) -> String {
         "random DAGs of 1..400 nodes over {Input, MontConstant, every binary operator except Pow, Neg, TernCond} with backward references only, 0..6 named inputs of length 1..5 at non-overlapping offsets (with gaps), a leading Input block as circom-witnesscalc emits plus optionally scattered Input nodes, arbitrary output lists (repeats allowed), boundary-weighted input values, named inputs supplied in a generated order (optionally one omitted); \
-         graph::evaluate and calc_witness(serialised graph) must equal a direct BigUint interpretation with the circom operator oracle; deserialize(serialize(g)) must equal g (nodes, signals, input map) and evaluate identically. \
+         graph::evaluate and calc_witness(serialised graph) must equal a direct BigUint interpretation with the circom operator oracle; deserialize(serialize(g)) must equal g (nodes, signals, input map) and evaluate identically; one case in eight first hands calc_witness a damaged copy of the container (failure contained) and then the intact one. \
          non-trivial = graph with a comparison/shift/bitwise/division/ternary node feeding an output and >= 2 named inputs; distinct by case content".into()
     }
     fn assumptions(&self) -> Vec<String> {
@@ -290,6 +290,18 @@ impl Property for C20 {
             if case.order_rot & 0x80 != 0 {
                 named.reverse();
             }
+        }
+        // one case in eight: first the same call handed a damaged copy of the container (cut in half /
+        // an empty node record / cut 3 bytes short); its failure is contained and must not reach the
+        // evaluation of the intact container that follows
+        if case_hash(case) % 8 == 0 {
+            o.label("after-a-damaged-container");
+            let dmg = match (case_hash(case) / 8) % 3 {
+                0 => bytes[..bytes.len() / 2].to_vec(),
+                1 => crate::rlnh::damaged_graph(0),
+                _ => bytes[..bytes.len().saturating_sub(3)].to_vec(),
+            };
+            let _ = guarded(|| calc_witness(named.clone(), &dmg));
         }
         match guarded(|| calc_witness(named.clone(), &bytes)) {
             Ok(got) => {
